@@ -56,6 +56,10 @@ static void put_block_line(int r, int start)
 {
         int j, k = 0;
         text[nlines][k++] = (char)('a' + r);
+#ifdef KV_LONGNAME
+        /* C05: a row name longer than the name buffer (MSA_NAME_LEN shrunk to KV_NAMECAP, rule R3): KV_LONGNAME characters */
+        for(j = 1; j < KV_LONGNAME; j++){ text[nlines][k++] = 'x'; }
+#endif
         text[nlines][k++] = ' '; text[nlines][k++] = ' ';
         for(j = start; j < KV_W && j < start + KV_BLOCK; j++){ text[nlines][k++] = rows[r][j]; }
         text[nlines][k] = 0; tlen[nlines] = k; nlines++;
@@ -109,8 +113,12 @@ void h_c06_readers(void)
                    shrunk capacity KV_CAP, more than the record table holds) */
                 for(i = 0; i < KV_CAP + 1 - KV_N; i++){ put_block_line(i % KV_N, start); }
 #endif
+#ifdef KV_WSSEP
+                put_line("  ");                     /* C04 "blank lines and padding": a separator line made of blanks */
+#else
                 put_line("");                       /* the writers print "\n" + newline: two empty lines */
                 put_line("");
+#endif
         }
         rc = alloc_in_buffer(&b, nlines + 1);
         KV_ASSUME(rc == OK);
@@ -127,7 +135,7 @@ void h_c06_readers(void)
 #else
         rc = read_msf(b, &m);
 #endif
-#if KV_HOSTILE == 1
+#if KV_HOSTILE == 1 || defined(KV_LONGNAME)
         /* C05: malformed text is either rejected or read without touching anything outside the reader's objects
            (the pointer / bounds / leak obligations of the query); nothing else is promised */
         KV_CHECK(rc == OK || rc == FAIL, "malformed text: the reader returns a status");
